@@ -269,6 +269,15 @@ class Run:
         if k not in self.class_axioms_done:
             self.class_axioms_done.add(k)
             self.class_terms.append(c)
+            if z3.is_app(c) and c.decl().name() == "cls_of":
+                # a class exists before its instances (addresses are in
+                # allocation order, A-ADDR-ORDER); known classes are negative
+                a = c.arg(0)
+                f = z3.Or(c < 0, c < a)
+                if self.in_spec and self.spec_side is not None:
+                    self.spec_side.append(f)
+                else:
+                    self.assume(f)
 
     def solver(self, timeout_ms):
         s = z3.Solver()
@@ -593,6 +602,7 @@ class Run:
         inst_has = self.obj_has(a, name, heap)
         inst = self.hread("fld", (a, name), heap)
         c = cls_of(a)
+        self.note_class_term(c)
         chas = self.obj_has(c, name, heap)
         cval = self.hread("fld", (c, name), heap)
         return inst_has, inst, chas, cval
